@@ -14,7 +14,7 @@ import hashlib as _hashlib
 
 install_oracle()
 
-FUNCTIONS_ENCODED = ['pgpy.pgp.PGPKey.verify', 'pgpy.pgp.PGPSignature.hashdata', 'pgpy.pgp.PGPKey.check_soundness',
+FUNCTIONS_ENCODED = ['pgpy.pgp.PGPUID.hashdata', 'pgpy.packet.packets.UserID.parse', 'pgpy.packet.packets.SignatureV4.halg / pubalg setters', 'pgpy.pgp.PGPKey.verify', 'pgpy.pgp.PGPSignature.hashdata', 'pgpy.pgp.PGPKey.check_soundness',
                      'pgpy.types.SignatureVerification.__bool__', 'pgpy.types.SignatureVerification.add_sigsubj',
                      'pgpy.packet.fields.EdDSASignature.__sig__', 'pgpy.pgp.PGPMessage.__or__', 'pgpy.pgp.PGPMessage.signatures',
                      'specs.rfc4880_sig.hash_input (injectivity lemma)']
